@@ -42,6 +42,7 @@ func walk(c Case, obs []StepObs, f func(i int, e Event, prev byte, prevAtt bool,
 // OracleCommon: crashes and hangs violate every property of this family.
 func OracleCommon(c Case, obs []StepObs) []Finding {
 	var out []Finding
+	conns := make([]int, len(c.Sess))
 	walk(c, obs, func(i int, e Event, prev byte, _ bool, o StepObs, _ *StepObs) {
 		if o.Panic != "" {
 			cls := "event-" + e.Kind
@@ -58,8 +59,18 @@ func OracleCommon(c Case, obs []StepObs) []Finding {
 			}
 			out = append(out, Finding{"panic-in-" + stateName(prev) + "-on-" + cls, fmt.Sprintf("step %d (%s): %s", i, e, firstLine(o.Panic))})
 		}
+		if (e.Kind == "up" || e.Kind == "upx") && (prev == 'C' || prev == 'A') {
+			conns[e.Sid]++
+		}
 		if o.Wedged != "" {
-			out = append(out, Finding{"wedged-in-" + stateName(prev), fmt.Sprintf("step %d (%s): %s", i, e, o.Wedged)})
+			sig := "wedged-in-" + stateName(prev)
+			if strings.Contains(o.Wedged, "never reacted") {
+				sig = "wedged-no-reaction-to-peer-input-in-" + stateName(prev)
+				if conns[e.Sid] > 1 {
+					sig = "wedged-on-reconnect-in-" + stateName(prev)
+				}
+			}
+			out = append(out, Finding{sig, fmt.Sprintf("step %d (%s), connection %d of the FSM: %s", i, e, conns[e.Sid], o.Wedged)})
 		}
 		if o.BadOut {
 			out = append(out, Finding{"garbage-written-to-peer", fmt.Sprintf("step %d (%s)", i, e)})
@@ -458,7 +469,7 @@ func OracleC21(c Case, obs []StepObs) []Finding {
 			if prev == 'C' || prev == 'A' {
 				broken[e.Sid] = e.Kind == "upx"
 			}
-		case "brk":
+		case "brk", "pc":
 			broken[e.Sid] = true
 		}
 		connOpen[e.Sid] = o.Conn == 'o'
@@ -537,7 +548,7 @@ func openClauses(m Msg, c SessCfg) (viol []string, names []string) {
 	}
 	// peer AS through AS_TRANS and the 4-octet capability
 	as := uint32(m.ASN16)
-	for _, x := range m.Caps {
+	for _, x := range FlatCaps(m.Caps) {
 		if x.Kind == 'a' && as == 23456 {
 			as = x.V
 		}
@@ -589,7 +600,7 @@ func expectedNeg(m Msg, c SessCfg, ours []string, ourHold int) string {
 	}
 	ka := h * 1000 / 3
 	has := func(f func(Cap) bool) bool {
-		for _, x := range m.Caps {
+		for _, x := range FlatCaps(m.Caps) {
 			if f(x) {
 				return true
 			}
@@ -700,7 +711,7 @@ func OracleC22(c Case, obs []StepObs) []Finding {
 			if prev == 'C' || prev == 'A' {
 				broken[e.Sid] = e.Kind == "upx"
 			}
-		case "brk":
+		case "brk", "pc":
 			broken[e.Sid] = true
 		}
 		connOpen[e.Sid] = o.Conn == 'o'
